@@ -46,18 +46,28 @@ Theorem C05_hydrate_binds_in_order_partial :
 Proof. exact hydrate_binds_in_order. Qed.
 Print Assumptions C05_hydrate_binds_in_order_partial.
 
-(** PARTIAL (structural form of "behaves like a client-built tree"). Proved, for every view and
+(** PARTIAL (structural form of "behaves like a client-built tree"), in the _except_known form for the
+    open finding F-C05-c: [wf] excludes raw-text elements (textarea / style / script), whose children
+    tachys does not hydrate — [hydrated_as_built_refuted_for_raw] in Dom/HydrateProofs.v is the
+    witness that the statement fails for them. Proved, for every view of the proved grammar and every
     position: [dom_hyd] — the parsed DOM in which every bound text node holds its view string, i.e.
     the same nodes as parsed ([C05_hydrated_same_nodes]) with the placeholder resets of
     [C05_hydrate_creates_nothing] applied — equals the client-built DOM once marker comments are
     dropped. Not proved: that replaying the logged writes on the parsed tree yields [dom_hyd]
     (computed by the model through [apply_ops] and compared with the implementation's
-    hydrated-vs-client-built verdict on every generated case), and the rebuild semantics after
-    hydration (compared only: rebuilds of the hydrated state vs the client-built twin). *)
-Theorem C05_hydrated_behaves_as_built_partial :
-  forall v pos, strip_forest (fst (dom_hyd v pos)) = strip_forest (dom_csr v).
+    hydrated-vs-client-built verdict on every generated case), the rebuild semantics after hydration
+    (compared only), and the streamed forms with Suspends pending at render time (driven and checked
+    by the oracle only; open finding F-C05-d = C07's F-C07-a). *)
+Theorem C05_hydrated_behaves_as_built_partial_except_known :
+  forall v in_p pos, wf in_p v = true ->
+    strip_forest (fst (dom_hyd v pos)) = strip_forest (dom_csr v).
 Proof. exact hydrated_as_built. Qed.
-Print Assumptions C05_hydrated_behaves_as_built_partial.
+Print Assumptions C05_hydrated_behaves_as_built_partial_except_known.
+
+Theorem C05_hydrated_behaves_as_built_refuted_for_raw_text_elements :
+  exists v, strip_forest (fst (dom_hyd v FirstChild)) <> strip_forest (dom_csr v).
+Proof. exact hydrated_as_built_refuted_for_raw. Qed.
+Print Assumptions C05_hydrated_behaves_as_built_refuted_for_raw_text_elements.
 
 Theorem C05_hydrated_same_nodes :
   forall v pos,
